@@ -154,6 +154,7 @@ type planAction struct {
 	final   string // respond | stall | close | rst | half
 	dup     bool
 	unk     bool
+	goaway  bool // answer, then announce that this connection goes away (bolt go-away frame / HTTP/2 GOAWAY / Connection: close) and close it
 	bodyLen int
 }
 
@@ -165,6 +166,8 @@ func parsePlan(ops []string) planAction {
 			a.status = 200
 		case op == "stall", op == "close", op == "rst", op == "half":
 			a.final = op
+		case op == "goaway":
+			a.goaway = true
 		case op == "dup":
 			a.dup = true
 		case op == "unk":
@@ -349,6 +352,9 @@ func (u *upstream) serveHTTP1(c net.Conn, id int64) {
 					}
 				}
 			}
+			if a.goaway {
+				hdr += "Connection: close\r\n"
+			}
 			hdr += "\r\n"
 			wmu.Lock()
 			defer wmu.Unlock()
@@ -364,6 +370,9 @@ func (u *upstream) serveHTTP1(c net.Conn, id int64) {
 			atomic.AddInt32(&inflight, -1)
 			if _, err := c.Write(append([]byte(hdr), rb...)); err != nil {
 				return
+			}
+			if a.goaway {
+				c.Close()
 			}
 		}()
 	}
@@ -491,6 +500,14 @@ func (u *upstream) serveBolt(c net.Conn, id int64) {
 				if a.dup {
 					_, _ = c.Write(resp)
 				}
+				if a.goaway {
+					// a go-away frame (command code 100, as MOSN's bolt codec builds it), the connection is closed a little later
+					_, _ = c.Write(buildBolt(boltFields{V2: f.V2, Ver1: f.Ver1, CmdType: 1, CmdCode: 100, Ver: f.Ver, ID: 0, Codec: f.Codec}))
+					go func() {
+						time.Sleep(150 * time.Millisecond)
+						c.Close()
+					}()
+				}
 				wmu.Unlock()
 			}(f)
 		}
@@ -552,6 +569,9 @@ func (u *upstream) serveHTTP2(c net.Conn, id int64) {
 					w.Header().Set(p[0], p[1])
 				}
 			}
+		}
+		if a.goaway {
+			w.Header().Set("Connection", "close") // the HTTP/2 server answers, sends GOAWAY and closes the connection
 		}
 		if a.status == 204 || a.status == 304 {
 			w.WriteHeader(a.status)
